@@ -5,7 +5,10 @@
 //! names the input position it came from: membership, multiset equality and pairing are exact.
 //! Index uniformity of the bootstrap is decided with an explicit false-alarm bound (χ² at
 //! α = 1e-12, the DKW band at α = 1e-12, and "every index is drawn" where missing one has
-//! probability < 1e-12). Repeated and special values are compared as multisets of bit patterns.
+//! probability < 1e-12); the same bounds govern two censuses pooled over many seeded calls of a fixed
+//! shape — every (resample, slot) → position cell at small shapes of all parities, and every position
+//! frequency at lengths 600..2000 (see "uniformity with power" below).
+//! Repeated and special values are compared as multisets of bit patterns.
 use crate::gen::{Rng, SPECIALS};
 use crate::oracle::stats;
 use crate::report::{guard, jf, par_cases, Cfg, Hasher, Report};
@@ -304,10 +307,247 @@ fn permutation_census(cfg: &Cfg, rep: &mut Report) {
     });
 }
 
+// ---------------------------------------------------------------------------------------------
+// uniformity with power: censuses pooled over many seeded calls
+//
+// The per-case tests above pool the draws of ONE call, which decides nothing about (i) one particular
+// (resample, slot) cell — a defect confined to, say, the last slot of the last resample moves a pooled
+// position frequency by 1/(len² · n_bootstrap) — and (ii) relative position biases of a few per cent
+// at lengths in the thousands, where one call yields ~200 draws per position. The two censuses below
+// fix the shape, re-seed `alea` for every call and pool over calls.
+//
+// False-alarm accounting (per shape / per length, unchanged library = independent uniform draws):
+//   * "never drawn": a cell whose expected count E is >= 200 is empty with probability
+//     (1 − 1/len)^calls <= exp(−E) <= 1.4e-87; union over <= 1e5 cells: < 1e-80.
+//   * max deviation: Bernstein's inequality for a Binomial(N, p) count X (variance <= E = N p,
+//     summands bounded by 1): P(|X − E| >= t) <= 2 exp(−t² / (2 (E + t/3))), rigorous for every N.
+//     The threshold solves 2 exp(..) = ALPHA / cells (Bonferroni): overall <= ALPHA = 1e-12.
+//   * Pearson χ² at ALPHA = 1e-12, only where every expected count is >= 16 (here >= 200 in the
+//     non-lite tiers): asymptotic, the same convention as the per-case χ² above.
+
+/// t with 2·exp(−t² / (2 (e + t/3))) = alpha (Bernstein bound for a binomial count with mean `e`).
+fn bernstein_t(e: f64, alpha: f64) -> f64 {
+    let l = (2.0 / alpha).ln();
+    l / 3.0 + (l * l / 9.0 + 2.0 * e * l).sqrt()
+}
+
+fn parity(n: usize) -> &'static str {
+    if n % 2 == 1 {
+        "odd"
+    } else {
+        "even"
+    }
+}
+
+/// (a) Every (resample, slot) → position cell of a fixed small shape, pooled over `calls` seeded calls.
+fn cell_census_shape(rep: &mut Report, rng: &mut Rng, len: usize, nb: usize, calls: usize) {
+    let regime = if len == 1 { "cells:len=1".to_string() } else { format!("cells:{}-len:{}-n_bootstrap", parity(len), parity(nb)) };
+    let d = make_data(rng, len, Class::Distinct);
+    let slots = nb * len;
+    let mut counts = vec![0u32; slots * len];
+    let mut not_counted = 0u64;
+    for _ in 0..calls {
+        rep.case(&regime);
+        alea::set_seed(rng.u64() | 1);
+        match guard(|| bootstrap(&d.x, nb)) {
+            Ok(out) if out.len() == nb && out.iter().all(|r| r.len() == len) => {
+                for (s, &v) in out.iter().flatten().enumerate() {
+                    match d.decode(v) {
+                        Some(p) => counts[s * len + p] += 1,
+                        None => not_counted += 1,
+                    }
+                }
+            }
+            _ => not_counted += 1,
+        }
+    }
+    if not_counted > 0 {
+        // panic / count / length / membership failures are judged (and reported) by the per-case checks
+        rep.note_add("census.calls_or_values_not_counted", not_counted as f64);
+        return;
+    }
+    rep.seen("cover:bootstrap:cells", 1);
+    let e = calls as f64 / len as f64;
+    let cells = (slots * len) as f64;
+    let slot_counts = |s: usize| counts[s * len..(s + 1) * len].to_vec();
+    let head = |obs: Value| json!({"fn": "bootstrap", "data": jf(&d.x), "len": len, "n_bootstrap": nb, "calls_pooled": calls, "alea_seed": "fresh per call, drawn from the case seed", "expected_count_per_cell": e, "observed": obs});
+    // never drawn
+    if e >= 200.0 {
+        let zero = counts.iter().position(|&c| c == 0);
+        rep.check("C19.bootstrap.cell_never_drawn", &regime, zero.is_none(), || {
+            let z = zero.unwrap();
+            let (s, p) = (z / len, z % len);
+            head(json!({"resample": s / len, "slot": s % len, "data_position_never_drawn": p, "position_counts_of_that_slot": slot_counts(s), "false_alarm_bound": cells * (-e).exp()}))
+        });
+    }
+    if len < 2 {
+        return;
+    }
+    let mut failures: Vec<Value> = Vec::new();
+    // largest cell deviation, Bonferroni over all cells
+    let t = bernstein_t(e, ALPHA / cells);
+    let (mut worst, mut at) = (0.0f64, 0usize);
+    for (i, &c) in counts.iter().enumerate() {
+        let dev = (c as f64 - e).abs();
+        if dev > worst {
+            worst = dev;
+            at = i;
+        }
+    }
+    rep.note_max("worst_ratio.bootstrap.cells.max_deviation(dev/threshold)", worst / t);
+    if worst > t {
+        let s = at / len;
+        failures.push(json!({"test": "largest cell deviation (Bernstein bound, Bonferroni over cells, alpha 1e-12)", "resample": s / len, "slot": s % len, "data_position": at % len, "count": counts[at], "expected": e, "threshold_abs_deviation": t, "position_counts_of_that_slot": slot_counts(s)}));
+    }
+    // Pearson over all cells: every slot is a multinomial over `len` positions
+    if e >= 16.0 {
+        let stat: f64 = counts.iter().map(|&c| (c as f64 - e) * (c as f64 - e) / e).sum();
+        let dof = (slots * (len - 1)) as f64;
+        let pv = chi2_sf(stat, dof);
+        rep.note_max("worst.bootstrap.cells.chi2(-log10 p)", -pv.max(1e-300).log10());
+        if !(pv >= ALPHA) {
+            // the slot that contributes most
+            let by_slot: Vec<f64> = (0..slots).map(|s| counts[s * len..(s + 1) * len].iter().map(|&c| (c as f64 - e) * (c as f64 - e) / e).sum()).collect();
+            let s = (0..slots).max_by(|&a, &b| by_slot[a].partial_cmp(&by_slot[b]).unwrap()).unwrap();
+            failures.push(json!({"test": "chi2 over all (resample, slot, position) cells", "stat": stat, "dof": dof, "p": pv, "largest_contribution": {"resample": s / len, "slot": s % len, "chi2_of_slot": by_slot[s], "position_counts": slot_counts(s)}}));
+        }
+    }
+    rep.check("C19.bootstrap.cell_uniform", &regime, failures.is_empty(), || head(json!({"failed": failures})));
+}
+
+fn cell_census(cfg: &Cfg, rep: &mut Report) {
+    if cfg.miri() {
+        return; // no χ² oracle under Miri, and 1e6 library calls are out of reach there
+    }
+    // tiny shapes: len 1..=6 × n_bootstrap 1..=4, all parities; E = calls/len >= 6 666 (quick)
+    let calls = cfg.pick(40_000, 400_000, 600);
+    // medium shapes: len 7..=64, n_bootstrap 1..=5, the four parity classes in turn; E = 400 / 1000
+    let n_medium = cfg.pick(8, 32, 1);
+    let per_len = cfg.pick(400, 1000, 50);
+    par_cases(cfg, rep, 3, 24 + n_medium, |i, rng, rep| {
+        if i < 24 {
+            cell_census_shape(rep, rng, i / 4 + 1, i % 4 + 1, calls);
+        } else {
+            let len = 7 + 2 * rng.usize(0, 28) + (i % 2); // 7..=64, parity by case index
+            let nb = if (i / 2) % 2 == 0 { *rng.choose(&[1usize, 3, 5]) } else { *rng.choose(&[2usize, 4]) }; // parity by case index
+            cell_census_shape(rep, rng, len, nb, per_len * len);
+        }
+    });
+}
+
+/// (b) Position frequencies at large lengths, pooled over enough calls to see relative biases of a few per cent.
+///
+/// Power. Alternative "a quarter of the positions carries 3 % less weight than the rest" (a 16-bit lane
+/// mapped by multiply-shift onto 2000 positions gives 464 positions 32 and 1536 positions 33 of the
+/// 65536 lane values): the relative deviations from 1/len are −2.25 % on 1/4 and +0.75 % on 3/4 of the
+/// positions, so the Pearson statistic over positions gains the non-centrality
+///     λ = N · (0.25 · 0.0225² + 0.75 · 0.0075²) = 1.69e-4 · N
+/// over its null mean len − 1. With N = 3.2e7 pooled draws (quick) at len = 2000: λ = 5400; the 1e-12
+/// critical value is 1999 + 478 = 2477 (Wilson–Hilferty, z = 7.03); under the alternative the statistic
+/// is 7399 ± sqrt(2·1999 + 4λ) = 160, i.e. 30 sd above the critical value — miss probability < 1e-190.
+/// The same N at len 1500 (44 vs 43 lane values: λ = 1.12e-4 N = 3580, 24 sd) and at len 1000 (66 vs 65,
+/// a 1.5 % imbalance: λ = 5.8e-5 N = 1860, 15 sd). N = 4e6 would leave only 2 sd at len 2000, hence 3.2e7.
+/// Thorough pools 2e8 draws per length (λ = 33 800 at len 2000; a 1.2 % imbalance on a quarter of the
+/// positions is then still 30 sd out). The max-deviation test is the complement for a bias concentrated
+/// on few positions: it fires when one position is off by more than sqrt(2 L / E) relative,
+/// L = ln(2·len/1e-12) = 36: 6.7 % at E = N/len = 1.6e4 (quick, len 2000), 2.7 % at E = 1e5 (thorough).
+fn position_census(cfg: &Cfg, rep: &mut Report) {
+    if cfg.miri() {
+        return;
+    }
+    use std::sync::Mutex;
+    let draws_per_len: usize = cfg.pick(32_000_000, 200_000_000, 100_000);
+    // 16 chunks per length (one per worker), 200 resamples per call = the largest count of the property's
+    // quantifier; sanitizer layers: one short call per length
+    let (chunks, nb) = if cfg.lite { (1usize, 20usize) } else { (16usize, 200usize) };
+    // fixed lengths where a 16-bit (or coarser) lattice is most visible, plus lengths drawn per seed
+    let mut lens: Vec<usize> = vec![1000, 1500, 2000];
+    {
+        let mut r = Rng::new(crate::report::case_seed(cfg.seed, 4, u64::MAX));
+        lens.push(2 * r.usize(300, 999) + 1); // odd, 601..=1999
+        lens.push(r.usize(1025, 2000));
+        lens.push(r.usize(600, 2000));
+    }
+    let pools: Vec<Mutex<(Vec<u64>, u64)>> = lens.iter().map(|&n| Mutex::new((vec![0u64; n], 0u64))).collect();
+    par_cases(cfg, rep, 4, lens.len() * chunks, |i, rng, rep| {
+        let li = i / chunks;
+        let n = lens[li];
+        let calls = (draws_per_len / chunks).div_ceil(nb * n).max(1);
+        let d = make_data(rng, n, Class::Distinct);
+        let mut local = vec![0u64; n];
+        let mut not_counted = 0u64;
+        for _ in 0..calls {
+            rep.case("positions:len>=600");
+            alea::set_seed(rng.u64() | 1);
+            match guard(|| bootstrap(&d.x, nb)) {
+                Ok(out) => {
+                    for &v in out.iter().flatten() {
+                        match d.decode(v) {
+                            Some(p) => local[p] += 1,
+                            None => not_counted += 1,
+                        }
+                    }
+                }
+                Err(_) => not_counted += 1,
+            }
+        }
+        let mut g = pools[li].lock().unwrap();
+        for (a, b) in g.0.iter_mut().zip(&local) {
+            *a += b;
+        }
+        g.1 += not_counted;
+    });
+    for (li, &n) in lens.iter().enumerate() {
+        let g = pools[li].lock().unwrap();
+        let (counts, not_counted) = (&g.0, g.1);
+        let total: u64 = counts.iter().sum();
+        if not_counted > 0 || total == 0 {
+            rep.note_add("census.calls_or_values_not_counted", not_counted as f64);
+            continue;
+        }
+        let regime = "positions:len>=600";
+        rep.seen("cover:bootstrap:positions", 1);
+        let e = total as f64 / n as f64;
+        let mut failures: Vec<Value> = Vec::new();
+        let t = bernstein_t(e, ALPHA / n as f64);
+        let (mut worst, mut at) = (0.0f64, 0usize);
+        for (i, &c) in counts.iter().enumerate() {
+            let dev = (c as f64 - e).abs();
+            if dev > worst {
+                worst = dev;
+                at = i;
+            }
+        }
+        rep.note_max("worst_ratio.bootstrap.positions.max_deviation(dev/threshold)", worst / t);
+        if worst > t {
+            failures.push(json!({"test": "largest position deviation (Bernstein bound, Bonferroni over positions, alpha 1e-12)", "position": at, "count": counts[at], "expected": e, "z": (counts[at] as f64 - e) / e.sqrt(), "threshold_abs_deviation": t}));
+        }
+        if e >= 16.0 {
+            let stat: f64 = counts.iter().map(|&c| (c as f64 - e) * (c as f64 - e) / e).sum();
+            let pv = chi2_sf(stat, (n - 1) as f64);
+            rep.note_max("worst.bootstrap.positions.chi2(-log10 p)", -pv.max(1e-300).log10());
+            if !(pv >= ALPHA) {
+                // summary that makes a lattice visible: positions sorted by count, lowest and highest decile means
+                let mut sorted: Vec<u64> = counts.clone();
+                sorted.sort_unstable();
+                let dec = (n / 10).max(1);
+                let lo = sorted[..dec].iter().sum::<u64>() as f64 / dec as f64;
+                let hi = sorted[n - dec..].iter().sum::<u64>() as f64 / dec as f64;
+                failures.push(json!({"test": "chi2 over positions", "stat": stat, "dof": n - 1, "p": pv, "mean_count_lowest_decile/expected": lo / e, "mean_count_highest_decile/expected": hi / e, "sd_of_a_count/expected": 1.0 / e.sqrt()}));
+            }
+        }
+        rep.check("C19.bootstrap.position_frequencies", regime, failures.is_empty(), || {
+            json!({"fn": "bootstrap", "data": "a random permutation of 0.25, 1.25, ..., len-0.75 per chunk", "chunks": chunks, "len": n, "n_bootstrap": nb, "draws_pooled": total, "alea_seed": "fresh per call, drawn from the case seeds of stream 4",
+                   "observed": {"failed": failures, "counts_first": counts[..32]}})
+        });
+    }
+}
+
 pub fn run(cfg: &Cfg, rep: &mut Report) {
     rep.rule = "per case: length n from {1, 2, 3..10, 11..100, 101..2000, 2000, 1..64, 1..2000}, data class (tagged distinct values = random permutation of 0..n plus 0.25; repeated values from a pool of <= 4; special values ±0, ±inf, NaN, subnormals with ties), 1..200 resamples, own alea seed; bootstrap, jackknife, shuffle and shuffle_two are each run and checked. non-trivial = n >= 2; distinct by (data bits, n_bootstrap, seed)".into();
     rep.assume("length 0 is outside the quantifier (\"every length from 1 upward\")");
     rep.assume("shuffle uniformity is not part of the property (only 'a permutation of its input'): outcome frequencies for n <= 4 are recorded as evidence; asserted is only gross bias (an outcome that never occurs in >= 2e4 shuffles, a position that never changes in 64 shuffles)");
+    rep.assume("bootstrap uniformity is additionally tested on draws pooled over many calls of a fixed shape, alea re-seeded per call: (a) every (resample, slot) -> position cell for len 1..=6 x n_bootstrap 1..=4 (4e4 calls per shape quick, 4e5 thorough) and for 8 (32) shapes with len 7..=64, n_bootstrap 1..=5 in all parity classes (400 (1000) x len calls): no cell empty when its expected count is >= 200 (false alarm < 1e-80), largest cell deviation within the Bernstein bound at 1e-12 Bonferroni-corrected over the cells (rigorous), chi2 over all cells at 1e-12; (b) position frequencies at len 1000, 1500, 2000 and three lengths in 600..2000 drawn per seed, 3.2e7 (2e8) draws pooled per length from calls with 200 resamples: largest position deviation within the Bernstein bound at 1e-12 Bonferroni-corrected over the positions, chi2 over positions at 1e-12 (power: a 3 % weight deficit on a quarter of the positions at len 2000 lies 30 sd beyond the critical value)");
     rep.assume("bootstrap index uniformity is tested on the pooled draws of one call: DKW band and χ² (bins with expected count >= 16, by contiguous index blocks and by residue classes) at α = 1e-12 each, plus 'every index drawn' when n·exp(−expected) < 1e-12");
     let n_cases = cfg.pick(400, 10_000, 4);
     par_cases(cfg, rep, 1, n_cases, |i, rng, rep| {
@@ -344,6 +584,8 @@ pub fn run(cfg: &Cfg, rep: &mut Report) {
         }
     });
     permutation_census(cfg, rep);
+    cell_census(cfg, rep);
+    position_census(cfg, rep);
     for r in ["len=1", "len>=2:distinct", "len>=2:repeated", "len>=2:special"] {
         rep.require(r, 1);
         for f in ["bootstrap", "jackknife", "shuffle", "shuffle_two"] {
@@ -353,5 +595,7 @@ pub fn run(cfg: &Cfg, rep: &mut Report) {
     if !cfg.lite {
         rep.require("cover:bootstrap:chi2", 1);
         rep.require("cover:bootstrap:all-indices-hit", 1);
+        rep.require("cover:bootstrap:cells", 24);
+        rep.require("cover:bootstrap:positions", 6);
     }
 }
